@@ -6,6 +6,7 @@ import (
 	"unicode/utf8"
 
 	"github.com/kstenerud/go-concise-encoding/ce"
+	"github.com/kstenerud/go-concise-encoding/configuration"
 	"pgregory.net/rapid"
 
 	"verif/internal/ev"
@@ -20,10 +21,27 @@ type C23Case struct {
 	Base []ev.Event `json:"base"`
 	A    []ev.Event `json:"a"`
 	B    []ev.Event `json:"b"`
+	// IntFmt / FloatFmt: Encoder.CTE.DefaultNumericFormats.Array setting applied to every integer / float
+	// array kind (0 = decimal, 4..9 = binary, octal, hexadecimal, plain or zero-filled); 255 = the defaults
+	IntFmt   uint8 `json:"int_fmt"`
+	FloatFmt uint8 `json:"float_fmt"`
 }
 
-func cteDirect(evs []ev.Event) ([]byte, int, error) {
+func (c *C23Case) config() *configuration.Configuration {
 	cfg := newCfg()
+	a := &cfg.Encoder.CTE.DefaultNumericFormats.Array
+	if c.IntFmt != 255 {
+		f := configuration.CTENumericFormat(c.IntFmt)
+		a.Int8, a.Int16, a.Int32, a.Int64, a.Uint8, a.Uint16, a.Uint32, a.Uint64 = f, f, f, f, f, f, f, f
+	}
+	if c.FloatFmt != 255 {
+		f := configuration.CTENumericFormat(c.FloatFmt)
+		a.Float16, a.Float32, a.Float64 = f, f, f
+	}
+	return cfg
+}
+
+func cteDirect(evs []ev.Event, cfg *configuration.Configuration) ([]byte, int, error) {
 	return encodeWith(ce.NewCTEEncoder(cfg), evs, cfg, false)
 }
 
@@ -40,7 +58,14 @@ func init() {
 			avoid(ctx, &o)
 			gen.EmitEmptyData = true // zero-length data events are one more way of dividing the same data
 			base := gen.Document(t, o)
-			return &C23Case{Base: base, A: gen.Rechunk(t, base, true, true), B: gen.Rechunk(t, base, true, true)}
+			c := &C23Case{Base: base, A: gen.Rechunk(t, base, true, true), B: gen.Rechunk(t, base, true, true), IntFmt: 255, FloatFmt: 255}
+			if rapid.IntRange(0, 2).Draw(t, "formats") == 0 {
+				// a non-default array format: the text still depends on the data only (float kinds: decimal or
+				// hexadecimal - binary / octal float arrays are the open finding S20)
+				c.IntFmt = uint8(rapid.SampledFrom([]int{0, 4, 5, 6, 7, 8, 9}).Draw(t, "intfmt"))
+				c.FloatFmt = uint8(rapid.SampledFrom([]int{0, 8, 9}).Draw(t, "floatfmt"))
+			}
+			return c
 		},
 		Check: func(ci interface{}, ctx *Ctx) error {
 			c := ci.(*C23Case)
@@ -49,6 +74,7 @@ func init() {
 				return genInvalid(ctx, idx, err, c.Base)
 			}
 			features(ctx, c.Base)
+			ctx.LabelIf(c.IntFmt != 255, fmt.Sprintf("array formats: int %d float %d", c.IntFmt, c.FloatFmt))
 			// non-trivial: an array of element width > 1 split mid-element, or a string split mid-character
 			nt := false
 			for _, list := range [][]ev.Event{c.A, c.B} {
@@ -93,9 +119,9 @@ func init() {
 			var i0, ia, ib int
 			var e0, ea, eb error
 			o := ctx.Guard(func() {
-				t0, i0, e0 = cteDirect(c.Base)
-				ta, ia, ea = cteDirect(c.A)
-				tb, ib, eb = cteDirect(c.B)
+				t0, i0, e0 = cteDirect(c.Base, c.config())
+				ta, ia, ea = cteDirect(c.A, c.config())
+				tb, ib, eb = cteDirect(c.B, c.config())
 			})
 			if o.TimedOut || o.Panic != nil {
 				return fmt.Errorf("CTE encoder: %v", o)
@@ -125,7 +151,7 @@ func init() {
 			if derr != nil {
 				return fmt.Errorf("CTE decoder rejected encoder output: %v\ndoc=%s", derr, textdump(t0))
 			}
-			t1, i1, e1 := cteDirect(out)
+			t1, i1, e1 := cteDirect(out, c.config())
 			if i1 >= 0 {
 				return fmt.Errorf("CTE encoder failed on decoded events at %d: %v", i1, e1)
 			}
